@@ -87,7 +87,7 @@ SPECS = {
               + [{"entry": "vh_c01_polynomial", "label": "vh_c01_polynomial.r0.n%d.p%d" % (n, pv), "fix": {"regime": 0, "ncoef": n, "prev": pv}} for n in range(3) for pv in range(1, 3)]
               + [{"entry": "vh_c01_polynomial", "label": "vh_c01_polynomial.r0.n%d.p0.o%d.g%d" % (n, o, g), "fix": {"regime": 0, "ncoef": n, "prev": 0, "o": o, "origin": g}} for n in range(3) for o in range(3) for g in range(2)]
               + [{"entry": "vh_c01_polynomial", "label": "vh_c01_polynomial.r1.n%d.w%d.p%d" % (n, w, pv), "fix": {"regime": 1, "ncoef": n, "symcoef": w, "prev": pv}, "tiers": (["quick", "thorough"] if n < 3 and w == 0 else ["thorough"])} for n in range(1, 4) for w in range(n) for pv in range(3)]
-              + [{"entry": e} for e in ("vh_c01_bool_string", "vh_c01_convert", "vh_c01_applypoly_kernel", "vh_c01_chunks")]}]},
+              + [{"entry": e} for e in ("vh_c01_bool_string", "vh_c01_convert", "vh_c01_applypoly_kernel", "vh_c01_chunks", "vh_c01_calibrated_types")]}]},
  "C15": {
   "explanation": "Full stack on the HDF5 model (compound datasets, member-by-name conversion, vlen strings): a 3-column frame (Int64, String, Double) is driven through bounded histories of rows(n) / writeRow / writeCell(s) / writeColumn(offset,count) with symbolic payloads, and after every step and after reopen all cells are read back through readRow, readCell (by index and name) and readColumn (resize, offset) and compared with a reference table; a second entry covers Bool/Int32/UInt32/UInt64 cells and schema mismatch.",
   "bounds": {"quick": {"history_steps": 2, "rows": "0..3", "columns": 3, "string_bytes": "0..2"}, "thorough": {"history_steps": 3}},
